@@ -606,3 +606,60 @@ mutant("c03-nlargest-plain-def", "C03", "heapq.py",
 neutral("c03-awaitify-new-name", ["C03", "C06", "C17"], "itertools.py",
         "        predicate = _awaitify(predicate)\n        async for item in async_iter:\n            if await predicate(item):\n                yield item\n            else:\n                break\n",
         "        apredicate = _awaitify(predicate)\n        async for item in async_iter:\n            keep = apredicate(item)\n            if await keep:\n                yield item\n            else:\n                break\n")
+
+# --------------------------------------------------------------------------- C02
+mutant("c02-max-unfix-xor", "C02", "builtins.py",
+       "                if (best < item) if invert else (item < best):\n",
+       "                if invert ^ (item < best):\n", rule="R02.1", unit="builtins._min_max")
+mutant("c02-keyed-max-le", "C02", "builtins.py",
+       "                if (best_key < item_key) if invert else (item_key < best_key):\n",
+       "                if (best_key <= item_key) if invert else (item_key < best_key):\n", rule="R02.1")
+mutant("c02-min-le", "C02", "builtins.py",
+       "                if (best < item) if invert else (item < best):\n",
+       "                if (best < item) if invert else (item <= best):\n", rule="R02.1")
+mutant("c02-keyed-stale-key", "C02", "builtins.py",
+       "                    best = item\n                    best_key = item_key\n",
+       "                    best = item\n", rule="R02.1")
+mutant("c02-minmax-swapped", "C02", "builtins.py",
+       "    return await _min_max(iterable, key, True, default)\n", "    return await _min_max(iterable, key, False, default)\n",
+       rule="R02", optional=True)
+mutant("c02-default-unfix", "C02", "builtins.py",
+       "        best = await anext(item_iter, default=__MIN_MAX_DEFAULT)\n",
+       "        best = await anext(item_iter, default=default)\n", rule="R02.2")
+mutant("c02-sum-unfix-inplace", "C02", "builtins.py",
+       "            total = total + item\n", "            total += item\n", rule="R02.3", unit="builtins.sum")
+mutant("c02-reduce-inplace", "C02", "functools.py",
+       "        async for head in item_iter:\n            value = await function(value, head)\n",
+       "        async for head in item_iter:\n            value += await function(value, head)\n", rule="R02")
+mutant("c02-dict-updates-kwargs-source", "C02", "builtins.py",
+       "    if kwargs:\n        base_dict.update(kwargs)\n    return base_dict\n",
+       "    if kwargs and isinstance(iterable, _sync_builtins.dict):\n        iterable.update(kwargs)\n    if kwargs:\n        base_dict.update(kwargs)\n    return base_dict\n",
+       rule="R02.3", unit="builtins.dict")
+mutant("c02-largest-unfix-sign", "C02", "heapq.py",
+       "        order_sign = -1\n", "        order_sign = -1 if reverse else 1\n", rule="R02.4")
+mutant("c02-reverselt-no-eq", "C02", "heapq.py",
+       "    def __eq__(self, other: ReverseLT[LT]) -> bool:  # type: ignore[override]\n        return not (self.key < other.key or other.key < self.key)\n",
+       "", rule="R02.4")
+mutant("c02-largest-nonstrict-replace", "C02", "heapq.py",
+       "            if worst_key < item_key:\n", "            if not (item_key < worst_key):\n", rule="R02.4")
+mutant("c02-largest-replacement-wrong-step", "C02", "heapq.py",
+       "                next_index += 1 * order_sign\n", "                next_index += 1\n", rule="R02.4")
+mutant("c02-nsmallest-direction", "C02", "heapq.py",
+       "    return await _largest(iterable=iterable, n=n, key=a_key, reverse=True)\n",
+       "    return await _largest(iterable=iterable, n=n, key=a_key, reverse=False)\n", rule="R02.4")
+mutant("c02-sorted-reversed-after", "C02", "builtins.py",
+       "            items.sort(reverse=reverse)\n            return items\n",
+       "            items.sort()\n            return items[::-1] if reverse else items\n", rule="R02.5")
+mutant("c02-sorted-compares-items", "C02", "builtins.py",
+       "            keyed_items.sort(key=lambda ki: ki[0], reverse=reverse)\n",
+       "            keyed_items.sort(reverse=reverse)\n", rule="R02.5")
+mutant("c02-reduce-arg-order", "C02", "functools.py",
+       "            value = await function(value, head)\n", "            value = await function(head, value)\n", rule="R02.6")
+mutant("c02-minmax-empty-typeerror", "C02", "builtins.py",
+       '                raise ValueError(f"{name}() arg is an empty sequence")\n',
+       '                raise TypeError(f"{name}() arg is an empty sequence")\n', rule="R02.6")
+neutral("c02-guard-as-if-else", ["C02", "C05", "C06"], "builtins.py",
+        "                if (best < item) if invert else (item < best):\n                    best = item\n",
+        "                if invert:\n                    if best < item:\n                        best = item\n                elif item < best:\n                    best = item\n")
+neutral("c02-max-gt-operator", ["C02"], "builtins.py",
+        "                if (best < item) if invert else (item < best):\n", "                if (item > best) if invert else (best > item):\n")
